@@ -400,6 +400,19 @@ def build_models(interp):
     def draw(kind, lo, hi, size):
         interp.rng_counter += 1
         name = "rng%d_%s" % (interp.rng_counter, kind)
+        feed = getattr(interp, "rng_feed", None)
+        if feed:
+            out = feed.pop(0)
+            if size is not None and isinstance(out, A):
+                axes, dom = _shape_to_axes(size)
+                if tuple(axes) != tuple(out.axes):
+                    raise ShapeError("random draw of shape %s fed with %s" % (axes, out.axes))
+                out = A(out.axes, out.e, out.dom, origin=None)
+                if dom != out.dom and not Hooks.domcheck(dom, out.dom, "size of random draw"):
+                    raise ShapeError("random draw size does not match the fed random numbers")
+            interp.rng_draws.append({"name": name, "kind": kind, "lo": lift(lo), "hi": lift(hi), "fed": True, "where": interp.where,
+                                     "symbol": out.e if isinstance(out, (A, S)) else None})
+            return out
         if size is None:
             s = sp.Symbol(name, real=True)
             out = S(s)
